@@ -405,22 +405,38 @@ def run(ctx, pid):
     return res
 
 
-C02_THEOREMS = []
-C03_THEOREMS = []
+P = "BluetoeModel.AttDiscovery."
+H = "BluetoeModel.AttHandles."
+C02_THEOREMS = [P + t for t in ("range_check", "slice_eq_inRange", "find_information_spec", "find_information_prefix_partial",
+                                "read_by_type_spec", "matches_t16", "mkFilter_16", "read_by_group_only_primary", "ofDecl_WF")] + \
+               [H + t for t in ("handles_strict_mono", "handles_nonzero", "first_index_count")]
+C02_WITNESSES = [P + t for t in ("find_information_skips_witness", "read_by_type_unreadable_witness", "read_by_type_128bit_witness",
+                                 "t128_never_matches", "read_by_type_skips_witness")]
+C03_THEOREMS = [P + t for t in ("read_by_group_only_primary", "find_by_type_value_only_primary", "groupLoop_sound", "findLoop_sound",
+                                "range_check", "ofDecl_WF")]
 
 PROPS = {
     "C02": dict(
-        theorems=C02_THEOREMS, witnesses=[],
+        theorems=C02_THEOREMS, witnesses=C02_WITNESSES,
         imports=["BluetoeModel.AttDiscovery.Props", "BluetoeModel.AttHandles.Props"],
         run=lambda ctx, replay_path=None: run(ctx, "C02"),
         level="proof",
+        technique="Lean 4 proof over every strictly ascending attribute table (index interval = requested handle range; selection loops are sublists / prefixes of it) + differential correspondence of the four discovery handlers with the real server<>::l2cap_input",
+        level_text="For the fixed handlers (fixes/attdisc-01..03), every well-formed table, start <= end, MTU >= 23: the index interval computed from the two handles is exactly the set of attributes with start <= handle <= end and never leaves the table; Find Information answers Attribute Not Found iff that set is empty and otherwise returns a sublist of it (in-range, ascending, own type) starting with its first element, a prefix when UUID sizes are uniform; Read By Type returns handles of in-range attributes of the requested type in ascending order and is never Attribute Not Found while a readable match exists; Read By Group Type returns only in-range services. Partial: the enumeration sentence and 'not found only when none exists' fail for mixed UUID/value sizes, unreadable attributes and true 128-bit types (witness theorems, known findings); the iteration 'repeat from last+1' itself is not mechanised (prefix + progress lemmas are).",
+        level_note="Trusted: Lean kernel + standard axioms; model = code as far as the differential check samples it (24 server types x boundary handle pairs x all present types x MTUs); write_128bit_uuid is modelled as 'the entry's UUID' (checked differentially); attribute values are static in the harness.",
         design_ref="§5 C02",
+        assumptions=["fixes/attdisc-01-end-handle-in-gap, -03-read-by-type-0x0001 applied (the check reports a VIOLATION on the unpatched tree)",
+                     "server declaration without include_service<> (C04 known finding) for the bridge ofDecl_WF"],
     ),
     "C03": dict(
         theorems=C03_THEOREMS, witnesses=[],
         imports=["BluetoeModel.AttDiscovery.Props", "BluetoeModel.AttHandles.Props"],
         run=lambda ctx, replay_path=None: run(ctx, "C03"),
         level="proof",
+        technique="Lean 4 loop-invariant proof over every table and service list (every reported group is a declared service whose declaration attribute has type «Primary Service», in range, with its real last handle) + differential correspondence with the real handlers",
+        level_text="For the fixed handlers (fixes/attdisc-01, -02): every group in a Read By Group Type «Primary Service» response and every range in a Find By Type Value «Primary Service» response is, for every table, service list, range and MTU, a declared service whose declaration attribute has type 0x2800 (never a secondary service), lies in the requested range, carries the service's UUID / the requested UUID and ends at the handle of the service's last attribute. Partial: completeness ('all primary services in range are reported, in order, up to the MTU') is checked by the monitor on the real code but not proved.",
+        level_note="Trusted: Lean kernel + standard axioms; model = code as far as the differential check samples it; the secondary_service<> struct form does not compile inside a server, only service<…, is_secondary_service> is in the family.",
         design_ref="§5 C03",
+        assumptions=["fixes/attdisc-01-end-handle-in-gap and -02-secondary-services applied (the check reports a VIOLATION on the unpatched tree)"],
     ),
 }
